@@ -152,9 +152,9 @@ pub fn run(ctx: &Ctx) -> Report {
     let mut rep = Report::new(ID, "exploration", ctx);
     rep.rule = "Cases: grammar-generated mappings (1..10 blocks) plus a 'wide' profile (up to 400 classes whose obfuscated names are built from a tiny alphabet: prefixes, '$'/'.' variants, case variants, non-ASCII, duplicates). Oracle: reference model (last class line wins; method answers iff class known, >=1 entry, all entries agree) for mapper and cache on every name in the file, every near-miss (edit distance 1, '$'<->'.', case flip) and sort-order neighbour, plus remap_throwable; invariant: whenever remap_method answers, every by-line frame for that (class, method) carries that method name. Non-trivial = distinct (case, lookup) of names present in the file / lookups where the method exists in the class.".into();
     rep.assumptions = vec!["cache buffers are 8-byte aligned".into()];
-    let n = ctx.cases(10_000, 150_000);
+    let n = ctx.cases(10_000, 450_000);
     rep.run_stage("ast", || map_case(&cfg()), n, check_case);
-    let nw = ctx.cases(100, 1500);
+    let nw = ctx.cases(100, 4_500);
     let max = ctx.tier.pick(150, 400);
     rep.run_stage("wide", move || wide_case(max), nw, check_case);
     let corpus = corpus_ast_cases(40, 150, 4, ctx);
